@@ -352,6 +352,18 @@ impl Out {
 pub trait Lib: Sync + Send {
     fn name(&self) -> &'static str;
     fn call(&self, g: Grp, op: Op, args: &[&[u8]]) -> Out;
+    /// the same operation through an alternative public route (`route` >= 1) where the flavour offers one
+    fn call_routed(&self, g: Grp, op: Op, args: &[&[u8]], _route: u8) -> Out {
+        self.call(g, op, args)
+    }
+}
+
+/// how often each operation was executed through an alternative public route (reach measurement only)
+pub static ALT_ROUTES_TAKEN: std::sync::Mutex<std::collections::BTreeMap<String, u64>> = std::sync::Mutex::new(std::collections::BTreeMap::new());
+pub fn note_alt_route(op: Op) {
+    if let Ok(mut m) = ALT_ROUTES_TAKEN.lock() {
+        *m.entry(format!("{:?}", op)).or_insert(0) += 1;
+    }
 }
 
 thread_local! {
